@@ -668,7 +668,7 @@ def entangled(prog, feats):
     return False
 
 
-def gen_mtl(rng: random.Random, overlap=False, nested=None, bound=2 ** 20, alias=None, zero_last=False):
+def gen_mtl(rng: random.Random, overlap=False, nested=None, bound=2 ** 20, alias=None, zero_last=False, nt=None):
     """trunk (random program) -> 1..3 feature tensors -> 1..4 heads with 0..3 own parameters
     (parameters shared between tasks in ~30 %).  Returns (prog, features, losses, tasks, shared)
     with tasks = per-loss lists of own parameters (leaves), shared = leaves the features reach.
@@ -688,7 +688,8 @@ def gen_mtl(rng: random.Random, overlap=False, nested=None, bound=2 ** 20, alias
         shared = [t for t in range(p.n()) if p.is_leaf[t] and p.req[t] and any(p.reach(f, t) for f in feats)]
         trunk_leaves = [t for t in range(p.n()) if p.is_leaf[t] and p.req[t]]
         n_trunk = p.n()
-        nt = rng.randint(1, 4)
+        n_tasks = nt
+        nt = rng.randint(1, 4) if n_tasks is None else n_tasks
         losses, tasks, pool, probes = [], [], [], []
         ok = True
         for ti in range(nt):
